@@ -276,10 +276,16 @@ impl Blockchain {
         }
         // (a copy stripped of its transactions decodes as a header block: it does not carry
         // what its header commits to either)
+        // (nor does a copy in which transactions were replaced by the SPV placeholders of a lite
+        // block: the placeholders keep the merkle root, the transactions are gone)
         if matches!(block.block_type, BlockType::Full | BlockType::Header)
             && !configs.is_spv_mode()
             && !configs.is_browser()
-            && block.merkle_root != block.generate_merkle_root(false, false)
+            && (block.merkle_root != block.generate_merkle_root(false, false)
+                || block
+                    .transactions
+                    .iter()
+                    .any(|tx| tx.transaction_type == TransactionType::SPV))
         {
             error!(
                 "block : {:?}-{:?} does not carry the transactions its header commits to. not adding",
